@@ -931,6 +931,9 @@ class Inliner:
         callee = r[0]
         if callee.name in stack or any(isinstance(n, ast.Return) and n.value is not None for n in ast.walk(callee)):
             return None
+        if any(isinstance(n, ast.Call) and isinstance(n.func, (ast.Name, ast.Attribute)) and (n.func.id if isinstance(n.func, ast.Name) else n.func.attr) == callee.name
+               for n in ast.walk(callee)):
+            return None         # recursive: one level written out is no simpler than the call
         self.counter += 1
         acc = f"acc_{callee.name.strip('_')}{self.counter}"
         direct = False
@@ -1501,7 +1504,8 @@ class _ExprNorm(ast.NodeTransformer):
             inner = g0.iter
             if not (isinstance(inner, (ast.GeneratorExp, ast.ListComp)) and not g0.is_async):
                 return node
-            if not norm.is_pure(inner, _PURE_EXT):
+            if not norm.is_pure(inner, _PURE_EXT) and not (isinstance(inner, ast.GeneratorExp) and len(node.generators) == 1):
+                # (a generator stage is evaluated on demand, element by element: fusing it runs exactly the same steps)
                 # an inner pipeline stage with calls keeps its own order of evaluation; what moves is the outer stage: that is harmless
                 # when it only computes from the element (constructors / builtins over the bound names, no reads of other objects)
                 tn = {n.id for n in ast.walk(g0.target) if isinstance(n, ast.Name)}
